@@ -237,4 +237,36 @@ def applyCmds : Keyspace → List Cmd → Option Keyspace
     | none => none
     | some ks' => applyCmds ks' cs
 
+/-! ## the target as a whole: numbered databases and a connection's current one -/
+
+/-- the target server as one connection sees it: the database the connection has
+    selected and the keyspace of every database -/
+structure TState where
+  cur : Int := 0
+  dbs : Int → Keyspace := fun _ => []
+
+instance : Inhabited TState := ⟨{}⟩
+
+def TState.setDb (t : TState) (d : Int) (ks : Keyspace) : TState :=
+  { t with dbs := fun x => if x = d then ks else t.dbs x }
+
+/-- one request on the connection: `SELECT n` (decimal index, not negative) switches
+    the database; `SCRIPT LOAD` and `FUNCTION RESTORE` touch no keyspace; every
+    other command acts on the selected database. `none` = an error reply. -/
+def applyReq (t : TState) (c : Cmd) : Option TState :=
+  let name := lower c.name
+  if name = b!"select" then
+    match c.args with
+    | [.b n] => (decToNat? n).map (fun d => { t with cur := (d : Int) })
+    | _ => none
+  else if name = b!"script" ∨ name = b!"function" then some t
+  else (applyXCmd (t.dbs t.cur) c).map (fun ks => t.setDb t.cur ks)
+
+def applyReqs : TState → List Cmd → Option TState
+  | t, [] => some t
+  | t, c :: cs =>
+    match applyReq t c with
+    | none => none
+    | some t' => applyReqs t' cs
+
 end GunYu.RedisSem
